@@ -169,6 +169,22 @@ END
 """)]
 
 
+# COMPONENTS OF a type imported from a module with another tagging default
+FIXED_COMPOF = [("ca.asn1", """CA DEFINITIONS AUTOMATIC TAGS ::= BEGIN
+EXPORTS ALL;
+
+Base ::= SEQUENCE { x INTEGER, y BOOLEAN }
+
+END
+"""), ("cb.asn1", """CB DEFINITIONS ::= BEGIN
+IMPORTS Base FROM CA;
+
+S ::= SEQUENCE { z [5] IA5String, COMPONENTS OF Base }
+
+END
+""")]
+
+
 def run(tier, seed):
     chk = core.Check("C12", tier, seed)
     quick = tier == "quick"
@@ -201,6 +217,7 @@ def run(tier, seed):
     # asn1c-specific directives must survive printing; -pdu=<a long type name> goes into the example makefiles
     sets.append(("gen-directives-0", [("dr.asn1", FIXED_DIRECTIVES)], True, ("-pdu=TelemetryPacketRecord",)))
     sets.append(("gen-param-0", FIXED_PARAM, False))
+    sets.append(("gen-compof-0", FIXED_COMPOF, False))
     for i in range(2 if quick else 10):
         sets.append(("gen-clash-%d" % i, gen_clash_set(seed * 100 + 70 + i, rng.choice([2, 2, 3])), True, ("-fcompound-names",)))
     shipped = sorted(glob.glob(os.path.join(tc.repo, "tests/tests-asn1c-compiler/*-OK.asn1")))
